@@ -8,14 +8,16 @@ P=$1; V=$2; SRC=$3; DEST=${4:-.}; PKG=${5:-.}; EXTRA=${6:-}
 ID=$P-$V
 WT=/tmp/vs-$ID
 export GOFLAGS=-mod=mod GOPROXY=off
+mkdir -p /tmp/seedout
 LOG=/tmp/seedout/verify-$ID.log
 exec >"$LOG" 2>&1
 git -C /repo worktree remove --force $WT 2>/dev/null
 git -C /repo worktree add --detach $WT HEAD || exit 2
 cleanup(){ git -C /repo worktree remove --force $WT; }
 trap cleanup EXIT
+mkdir -p $WT/$DEST
 cp $SRC/seeded_*_test.go $WT/$DEST/ || exit 2
-RUN=$(ls $SRC/seeded_*_test.go | head -1 | xargs grep -ho "^func Test[A-Za-z0-9_]*" | sed 's/func //' | paste -sd'|')
+RUN=${RUN_OVERRIDE:-$(ls $SRC/seeded_*_test.go | head -1 | xargs grep -ho "^func Test[A-Za-z0-9_]*" | sed 's/func //' | paste -sd'|')}
 cd $WT
 echo "### demo on pristine (expect PASS): -run '$RUN' $PKG"
 go test $EXTRA -vet=off -count=1 -timeout 20m -run "^($RUN)\$" $PKG; PR=$?
